@@ -7,3 +7,6 @@ import "github.com/TarsCloud/TarsGo/tars"
 const msgIDPreset = true
 
 func presetMsgID(v int32) { tars.VerifSetMsgID(v) }
+
+// bumpMsgID advances the process-wide request id counter by delta.
+func bumpMsgID(delta int32) { tars.VerifSetMsgID(tars.VerifMsgID() + delta) }
